@@ -5,8 +5,10 @@ PROP = {
     "streams": [{"name": "faults"}],
     "rule": "faults: a fixed family of templates covering each tag and each trim-marker position (tablerow with cols, nested loops with "
             "break/continue, raw with trim markers, capture, include, cycle, engine-registered custom tags and blocks) plus generated and "
-            "woven templates with generated environments; for each, the underlying Write calls of a fault-free FRender are compared call by "
-            "call with the model's interaction tree (op `writes`), and for EVERY call index k four faulty writers ({fail once, fail from k on} x "
+            "woven templates with generated environments; for each template without the harness's custom tags (the model has none: those "
+            "are run through the oracle only) the underlying Write calls of a fault-free FRender are compared call by "
+            "call with the model's interaction tree (op `writes`), and for every call index k (for a run of more than 1200 calls: "
+            "the first and the last 600 indices) four faulty writers ({fail once, fail from k on} x "
             "{accept nothing, accept a strict prefix}; thorough adds short writes without error) are run on the real code through FRender and "
             "ParseAndFRender: flagged are a panic, a nil error, a non-SourceError, a Cause() that is not the writer's error, any Write call after "
             "the failing one, accepted bytes that are not a prefix of the fault-free output; non-trivial = at least one write call",
@@ -15,19 +17,28 @@ PROP = {
 }
 
 TEXT = {
-    "text": ("Rendering is an interaction tree over the caller's writer. Theorem frender_stops: for every template, environment, "
-              'configuration and layout, at each Write on the success path a failed write ends the render at once with an error '
-              "whose cause is the writer's failure; frender_faulty: a writer failing at its k-th call (accepting any part) makes "
-              'FRender return that error after exactly k+1 calls; frender_faulty_prefix: the bytes accepted are a prefix of the '
-              "fault-free output; capture bodies never reach the caller's writer (capture_infallible); no panic by C01. From source bytes "
+    "text": ("Rendering is an interaction tree over the caller's writer. Theorem frender_stops: for every compiled template, environment, "
+              'configuration, file system and include depth, at each Write on the success path a failed write ends the render at once with an error '
+              "whose cause is the writer's failure (predicate Stops; its leaves may still be a panic or an unmodelled result of the "
+              'fault-free path); frender_faulty: for every k below the number of Write calls of the fault-free render, a writer '
+              'failing at its k-th call (accepting any part) makes FRender return an error whose cause is that failure - not '
+              'success, not a panic - after exactly k+1 calls; frender_faulty_prefix: the bytes accepted are a prefix of the '
+              "fault-free output; capture bodies and included files never reach the caller's writer (capture_infallible, "
+              'renderFileWith_noCalls). The theorems say the cause is the writer\'s failure (IsIo, which also admits an unlocated '
+              'error): that the error is a located SourceError is checked by the faults stream only. A panic that does not come '
+              "from the writer's failure is C01's business, not proved here. From source bytes "
               '(Proofs.C20Source): for every source that compiles the same three facts hold of FRender on the compiled template '
               '(source_faulty_prefix), and whenever run returns the output out, what a writer failing at any call k accepted is a prefix of '
               'out (run_faulty_prefix, run_spell_faulty_prefix). Tie: the '
-              '`faults` stream compares the sequence of underlying Write calls with the real FRender and executes every '
-              'single-fault plan (exhaustive over the call index, none/partial acceptance, fail-once/fail-forever) on the real '
-              'code.'),
+              '`faults` stream compares the sequence of underlying Write calls with the real FRender (templates without custom '
+              'tags) and executes every single-fault plan (every call index, capped to the first and last 600 for runs of more '
+              'than 1200 calls; none/half acceptance; fail-once/fail-forever) on the real code through FRender and ParseAndFRender.'),
     "design_ref": 'DESIGN.md 6 C20',
-    "note": NOTE + ('A writer that reports a short write without an error is outside the property and the model.'),
+    "note": NOTE + ('A writer that reports a short write without an error is outside the property and the model. '
+              '"Never a panic" is proved as: an error for every k below the number of fault-free calls (frender_faulty); other '
+              "panics are C01's. That the returned error is a located SourceError rests on the faults stream "
+              '(clause not-a-source-error), not on a theorem. The stream explores at most 1200 call indices per run (first and '
+              'last 600) and runs templates with the engine-registered custom tags through the oracle only.'),
     "technique": ('Lean 4 proof (inductive Stops predicate on interaction trees, by induction over the render tree) + '
-              'model/implementation correspondence of Write-call sequences + exhaustive fault injection on the implementation'),
+              'model/implementation correspondence of Write-call sequences + fault injection at every call index (first and last 600 beyond 1200 calls) on the implementation'),
 }
